@@ -97,8 +97,67 @@ def _call(args):
         raise RuntimeError(f'shard {shard!r} crashed: {e!r}\n{traceback.format_exc()}')
 
 
+def _isolated(args):
+    """run fn(shard) in a forked child of this worker, so that a crash of the code under test (segmentation fault, abort) is observed
+    instead of killing the worker; returns ('ok', Stats) | ('crash', description) | ('error', text)"""
+    import pickle, signal
+    fn, shard = args
+    r, w = os.pipe()
+    pid = os.fork()
+    if pid == 0:
+        os.close(r)
+        code = 0
+        try:
+            try:
+                data = pickle.dumps(('ok', fn(shard)))
+            except boot.HarnessError as e:
+                data = pickle.dumps(('harness', str(e)))
+            except BaseException as e:
+                data = pickle.dumps(('error', f'shard {shard!r} crashed: {e!r}\n{traceback.format_exc()}'))
+            with os.fdopen(w, 'wb') as f:
+                f.write(data)
+        except BaseException:
+            code = 3
+        os._exit(code)
+    os.close(w)
+    with os.fdopen(r, 'rb') as f:
+        data = f.read()
+    _, status = os.waitpid(pid, 0)
+    if os.WIFSIGNALED(status):
+        sig = os.WTERMSIG(status)
+        try:
+            name = signal.Signals(sig).name
+        except ValueError:
+            name = str(sig)
+        return ('crash', f'signal {name}')
+    if not data:
+        return ('crash', f'exit status {os.WEXITSTATUS(status)} without a result')
+    return pickle.loads(data)
+
+
+def _crash_record(total, fn, shard, how):
+    import pickle, base64
+    total.violation(f'crash/{fn.__module__.split(".")[-1]}.{fn.__name__}',
+                    f'the code under test terminated the process ({how}) while this block of inputs was explored: {repr(shard)[:300]}',
+                    engine='crash', fn=f'{fn.__module__}:{fn.__name__}', how=how, shard_pickle=base64.b64encode(pickle.dumps(shard)).decode())
+
+
+def replay_crash(rec):
+    """re-run the recorded block in an isolated child: 1 if the process dies again"""
+    import pickle, base64, importlib
+    modname, fname = rec['fn'].split(':')
+    fn = getattr(importlib.import_module(modname), fname)
+    shard = pickle.loads(base64.b64decode(rec['shard_pickle']))
+    out = _isolated((fn, shard))
+    print('isolated re-run:', out[0], out[1] if out[0] != 'ok' else '')
+    return 1 if out[0] == 'crash' else 0
+
+
 def pmap(fn, shards, procs=None):
-    """run fn(shard)->Stats over shards with forked workers, merge in shard order (deterministic)"""
+    """run fn(shard)->Stats over shards with forked workers, merge in shard order (deterministic). If the code under test kills a worker
+    (segmentation fault), the unfinished blocks are re-run each in its own child process and the ones that die are reported as violations."""
+    import concurrent.futures as cf
+    from concurrent.futures.process import BrokenProcessPool
     shards = list(shards)
     procs = min(procs or NPROC, len(shards)) or 1
     total = Stats()
@@ -107,9 +166,32 @@ def pmap(fn, shards, procs=None):
             total.merge(fn(s))
         return total
     ctx = multiprocessing.get_context('fork')
-    with ctx.Pool(procs) as pool:
-        for st in pool.imap(_call, [(fn, s) for s in shards], chunksize=1):
-            total.merge(st)
+    results = [None] * len(shards)
+    broken = False
+    with cf.ProcessPoolExecutor(procs, mp_context=ctx) as ex:
+        futs = [ex.submit(_call, (fn, s)) for s in shards]
+        for k, f in enumerate(futs):
+            try:
+                results[k] = f.result()
+            except BrokenProcessPool:
+                broken = True
+            except cf.CancelledError:
+                broken = True
+    if broken:
+        todo = [k for k, r in enumerate(results) if r is None]
+        with cf.ProcessPoolExecutor(min(procs, len(todo)) or 1, mp_context=ctx) as ex:
+            for k, out in zip(todo, ex.map(_isolated, [(fn, shards[k]) for k in todo])):
+                if out[0] == 'ok':
+                    results[k] = out[1]
+                elif out[0] == 'crash':
+                    results[k] = Stats()
+                    _crash_record(results[k], fn, shards[k], out[1])
+                elif out[0] == 'harness':
+                    raise boot.HarnessError(out[1])
+                else:
+                    raise RuntimeError(out[1])
+    for st in results:
+        total.merge(st)
     return total
 
 
@@ -188,7 +270,7 @@ def finish(prop, tier, seed, level, stats, t0, rule, nontrivial, evaluations, ex
                         try:
                             import io, contextlib
                             with contextlib.redirect_stdout(io.StringIO()):
-                                outcomes.append(REPLAYER(unknown[0]))
+                                outcomes.append(replay_crash(unknown[0]) if unknown[0].get('engine') == 'crash' else REPLAYER(unknown[0]))
                         except Exception as e:
                             outcomes.append(f'replay raised {e!r}')
                     replay_log[key] = outcomes
